@@ -648,7 +648,15 @@ impl<'s> Visit<'s> for Rw<'s> {
             syn::Expr::Await(aw) => {
                 let (a, _) = br(aw.dot_token.span());
                 let (_, b) = br(aw.await_token.span());
-                self.edit(a, b, "", "R1", &format!(".await removed at {}", self.loc(aw.await_token.span())));
+                let is_var = matches!(&*aw.base, syn::Expr::Path(p) if p.path.get_ident().is_some());
+                if is_var && self.unit.await_vars {
+                    // R1b: awaiting a *variable* that holds a future yields its value: `f.await` -> `await_value(f)`
+                    let (x, _) = br(aw.base.span());
+                    self.edit(x, x, "await_value(", "R1", &format!("await of a future variable at {}", self.loc(aw.await_token.span())));
+                    self.edit(a, b, ")", "R1", "await_value close");
+                } else {
+                    self.edit(a, b, "", "R1", &format!(".await removed at {}", self.loc(aw.await_token.span())));
+                }
                 self.visit_expr(&aw.base);
             }
             syn::Expr::Macro(m) => {
